@@ -345,10 +345,15 @@ def replay_once(pid, spec, binary, scratch, path, test=None, n=1):
     sd = tempfile.mkdtemp(prefix="replay_", dir=scratch)
     env = vfbuild.goenv()
     env.update({"VF_REPLAY": path, "VF_REPLAY_N": str(n), "VF_KNOWN": KNOWN_FILE, "VF_SHARD": "r", "VF_TIER": "quick"})
+    memlimit = None
     for part in spec["parts"]:
         if part["test"] == test:
             env.update({k: str(v) for k, v in part.get("env", {}).items()})
+            memlimit = part.get("memlimit_gb")
     cmd = [binary, "-test.run", "^%s$" % test, "-test.timeout", "20m", "-test.v"]
+    if memlimit:
+        # same address-space cap as the search: a reproducer that allocates without bound dies inside its own process
+        cmd = ["bash", "-c", "ulimit -v %d; exec \"$@\"" % (int(memlimit) * 1024 * 1024), "x"] + cmd
     r = subprocess.run(cmd, cwd=sd, env=env, stdout=subprocess.PIPE, stderr=subprocess.STDOUT, text=True, errors="replace")
     m = re.search(r"VF-REPLAY property=(\S+) result=(\S+) runs=(\d+) failed=(\d+) symptom=(\S*) message=(.*)", r.stdout)
     if not m:
